@@ -251,7 +251,8 @@ func H_C11_schedules() {
 	vfReach("done")
 }
 
-// H_C11_execAlone: two goroutines execute already parsed templates (symbolic choice among
+// H_C11_execAlone: two goroutines execute already parsed templates (the same parsed template
+// when both choose the same source; symbolic choice among
 // ten: globals, missing names, fields resolved through the struct cache for the first
 // time, include of a not yet loaded template, range, try/catch, block/yield) concurrently,
 // under every schedule in which the second starts at any synchronisation point of the
@@ -272,6 +273,9 @@ func H_C11_execAlone() {
 	if err1 != nil || err2 != nil {
 		vfAssert(false, "templates parse")
 		return
+	}
+	if a == b {
+		tb = ta // the usual case: one parsed template executed by both goroutines
 	}
 	// solo results on an identical, separate Set (so that nothing is warmed up here)
 	solo := func(k int) string {
